@@ -184,7 +184,7 @@ def optAbsGt (x : Option Rat) (lim : Rat) : Bool := match x with | some v => dec
 def is50 (bits : Bits) : Res Bool := do
   if (← allzerosB bits) then pure false else do
   let d ← dataR bits
-  if !(← statusOk d [(1, 3, 11), (12, 13, 23), (24, 25, 34), (35, 36, 45), (46, 47, 56)]) then pure false else do
+  if !(← statusOk d [(1, 2, 11), (12, 13, 23), (24, 25, 34), (35, 36, 45), (46, 47, 56)]) then pure false else do
   let roll ← roll50 bits
   if optAbsGt roll 50 then pure false else do
   let gs ← gs50 bits
